@@ -135,6 +135,7 @@ func runCheck(id, tier string) int {
 		rpc <- rpRes{rp, err}
 	}()
 
+	var rp *replayer
 	var results []*JobResult
 	for i := range jobs {
 		j := &jobs[i]
@@ -143,13 +144,32 @@ func runCheck(id, tier string) int {
 		results = append(results, res)
 	}
 
+	var cr *cliReplayer
+	for _, j := range jobs {
+		if j.Pkg == "main" && cr == nil {
+			var err error
+			cr, err = newCLIReplayer()
+			if err != nil {
+				fmt.Fprintln(os.Stderr, err)
+				fmt.Printf("MACHINERY-FAILURE property=%s cannot build the CLI replay: %v\n", id, firstLines(err.Error(), 3))
+				return 2
+			}
+			defer cr.close()
+		}
+	}
+	native := func(j *Job, raw map[string]string, aid string) *NativeResult {
+		if j.Pkg == "main" {
+			return cr.run(j, raw, aid)
+		}
+		return rp.run(j, raw)
+	}
 	rr := <-rpc
 	if rr.err != nil {
 		fmt.Fprintln(os.Stderr, rr.err)
 		fmt.Printf("MACHINERY-FAILURE property=%s cannot build the native replay harness: %v\n", id, firstLines(rr.err.Error(), 3))
 		return 2
 	}
-	rp := rr.rp
+	rp = rr.rp
 	defer rp.close()
 
 	known := loadKnown()
@@ -205,14 +225,14 @@ func runCheck(id, tier string) int {
 			machinery = true
 		}
 		// --- witness replay: engine prediction vs real build on sampled completed paths ---
-		if !j.NoNative {
+		if !j.NoNative || j.Pkg == "main" {
 			n := 0
 			for _, s := range res.Samples {
 				if n >= witnessPerJob {
 					break
 				}
 				n++
-				out := rp.run(j, s.Model)
+				out := native(j, s.Model, "")
 				replays++
 				if d := compareObserved(s, out); d != "" {
 					if len(out.Failed) > 0 || out.Panic != "" || out.Crash != "" || out.Timeout {
@@ -268,12 +288,12 @@ func runCheck(id, tier string) int {
 					continue
 				}
 				tried++
-				if j.NoNative {
+				if j.NoNative && j.Pkg != "main" {
 					confirmed = true
 					cexPath = writeCex(j, aid, v.Model)
 					break
 				}
-				out := rp.run(j, v.Model)
+				out := native(j, v.Model, aid)
 				replays++
 				if confirms(out, aid) {
 					confirmed = true
